@@ -269,6 +269,10 @@ void mon_qos2_sender(const Run& run, const Ix& ix, Verdicts& v, vu::Result& res)
             }
             if (consumed_at != UINT64_MAX) {
                 res.count("pubrec_consumed");
+                // (f) ... and the exchange goes on with PUBREL: a successful PUBREC (any reason code below 0x80, e.g. 0x10 No matching
+                // subscribers) does not end it
+                if (o.completions && !o.ec && ix.op_rels[o.id].empty())
+                    v.add("C03", "C03:no-pubrel-after-successful-pubrec", op_str(o) + ": completed successfully although no PUBREL was ever transmitted after its successful PUBREC");
                 for (int ci : pubs) if (h.cpkts[ci].seq > consumed_at)
                     v.add("C03", "C03:publish-after-consumed-pubrec", op_str(o) + ": PUBLISH transmitted again although a successful PUBREC for a successfully written transmission had been delivered before");
             }
